@@ -142,6 +142,9 @@ def writeSites : List WriteSite := [
   ⟨"convert", "field", "c", .converter, "depth"⟩,
   ⟨"convert", "index", "c.counts", .converter, ""⟩,
   ⟨"convert", "index", "c.seen", .converter, ""⟩,
+  ⟨"convert", "index", "c.converting", .converter, ""⟩,
+  ⟨"convert", "delete", "c.converting", .converter, ""⟩,
+  ⟨"convert", "deref", "slot", .converter, ""⟩,
   ⟨"convert", "field", "c", .converter, "auto"⟩,
   ⟨"convert", "index", "c.refs", .converter, ""⟩,
   ⟨"convert", "index", "c.defs", .converter, ""⟩,
@@ -203,10 +206,16 @@ def writeSites : List WriteSite := [
   ⟨"doConvert", "field", "emptyNotSchema", .fresh, "Boolean"⟩,
   ⟨"doConvert", "deref", "emptyNotSchema.Boolean", .fresh, ""⟩,
   ⟨"getID", "index", "c.idCache", .converter, ""⟩,
+  ⟨"lazyRef", "field", "c", .converter, "auto"⟩,
+  ⟨"lazyRef", "deref", "slot", .fresh, ""⟩,
+  ⟨"lazyRef", "index", "c.lazyDefs", .converter, ""⟩,
+  ⟨"lazyRef", "index", "c.refs", .converter, ""⟩,
+  ⟨"lazyRef", "index", "c.defs", .converter, ""⟩,
   ⟨"toJSONSchemaRegistry", "field", "opts", .fresh, "Metadata"⟩,
   ⟨"toJSONSchemaRegistry", "append", "schemasInRegistry", .fresh, ""⟩,
   ⟨"toJSONSchemaRegistry", "field", "rootSchema", .fresh, "Defs"⟩,
   ⟨"toJSONSchemaRegistry", "index", "rootSchema.Defs", .fresh, ""⟩,
+  ⟨"toJSONSchemaSingle", "field", "c", .fresh, "root"⟩,
   ⟨"toJSONSchemaSingle", "field", "s", .fresh, "Defs"⟩,
   ⟨"toJSONSchemaSingle", "index", "s.Defs", .fresh, ""⟩,
   ⟨"unwrapSchema", "index", "c.unwrapCache", .converter, ""⟩,
